@@ -121,11 +121,13 @@ func c15ErrByName(s string) error {
 type c15Collector struct {
 	mu     sync.Mutex
 	traces []Trace
+	at     []time.Time // when each trace was handed over (virtual time inside a synctest bubble)
 }
 
 func (c *c15Collector) Complete(t Trace) {
 	c.mu.Lock()
 	c.traces = append(c.traces, t)
+	c.at = append(c.at, time.Now())
 	c.mu.Unlock()
 }
 
@@ -143,6 +145,8 @@ type c15Step struct {
 	Data []byte // bytes the underlying Read returns / bytes given to Write
 	Err  error  // error the underlying call returns
 	N    int    // Write only: count the underlying Write returns; <0 = len(Data)
+	// Sleep > 0: no call at all, this much (virtual) time passes (only inside a synctest bubble)
+	Sleep time.Duration
 }
 
 const (
@@ -166,8 +170,9 @@ type c15Result struct {
 	PanicVal   string
 	Opaque     string // first transparency difference, "" if none
 	Traces     []Trace
-	EarlyCount int  // traces present before the final Close (FinWait only)
-	BrokenReq  bool // frame tracer of the request direction gave up
+	TraceAt    []time.Duration // when each trace was handed to the collector, since the start of the case
+	EarlyCount int             // traces present before the final Close (FinWait only)
+	BrokenReq  bool            // frame tracer of the request direction gave up
 	BrokenResp bool
 	Steps      int // calls made
 }
@@ -231,6 +236,7 @@ func c15Guard(op string, res *c15Result, f func()) (ok bool) {
 func c15Exec(isServer bool, steps []c15Step, fin int) (res c15Result) {
 	under := &c15Conn{wrN: -1}
 	col := &c15Collector{}
+	start := time.Now()
 	var conn net.Conn
 	if !c15Guard("TracingHTTP2Conn", &res, func() { conn = TracingHTTP2Conn(under, isServer, col) }) {
 		return res
@@ -299,6 +305,10 @@ func c15Exec(isServer bool, steps []c15Step, fin int) (res c15Result) {
 	}
 	alive := true
 	for i, st := range steps {
+		if st.Sleep > 0 {
+			time.Sleep(st.Sleep)
+			continue
+		}
 		res.Steps++
 		isRead := (st.Dir == c15DirReq) == isServer
 		if isRead {
@@ -357,6 +367,9 @@ func c15Exec(isServer bool, steps []c15Step, fin int) (res c15Result) {
 	}
 	col.mu.Lock()
 	res.Traces = append([]Trace(nil), col.traces...)
+	for _, at := range col.at {
+		res.TraceAt = append(res.TraceAt, at.Sub(start))
+	}
 	col.mu.Unlock()
 	return res
 }
@@ -368,7 +381,7 @@ func c15Exec(isServer bool, steps []c15Step, fin int) (res c15Result) {
 type c15Item struct {
 	Call      int  // 0 / 1 = call A / B, -1 = connection prologue
 	Dir       int  // c15DirReq / c15DirResp
-	Kind      byte // P preface, S settings, A settings ack, W window update, H headers, C continuation, D data, R rst_stream, G goaway
+	Kind      byte // P preface, S settings, A settings ack, W window update, H headers, C continuation, D data, R rst_stream, G goaway, Y priority, X a frame of a type the protocol does not define (0xEE; must be ignored), N ping
 	Stream    uint32
 	Fields    []hpack.HeaderField
 	Split     bool // H: the header block continues in the following C item(s)
@@ -382,6 +395,9 @@ type c15Item struct {
 	Late      bool   // frame of the response direction that arrives after the stream was reset by the client / dropped by GOAWAY
 	HasTab    bool   // S: the frame also carries SETTINGS_HEADER_TABLE_SIZE = TabSize
 	TabSize   uint32 // (advertised by the decoder of the OTHER direction's header blocks)
+	Padded    bool   // D, H: the frame carries the PADDED flag: a pad-length byte in front, PadLen zero bytes behind
+	PadLen    int    // 0..255
+	Prio      bool   // H: the frame carries the PRIORITY flag and its 5 bytes (stream dependency, weight)
 }
 
 func (it c15Item) String() string {
@@ -404,6 +420,15 @@ func (it c15Item) String() string {
 	}
 	if it.Late {
 		s += "/late"
+	}
+	if it.Padded {
+		s += fmt.Sprintf("/padded=%d", it.PadLen)
+		if it.Kind == 'D' {
+			s += fmt.Sprintf("/data=%d", len(it.Data))
+		}
+	}
+	if it.Prio {
+		s += "/priority"
 	}
 	if it.Kind == 'R' || it.Kind == 'G' {
 		s += fmt.Sprintf("/code=%d", uint32(it.Code))
@@ -555,6 +580,32 @@ func (e *c15DirEnc) encode(it *c15Item) []byte {
 				e.updateSplit++
 			}
 		}
+		if it.Padded || it.Prio {
+			// RFC 9113 section 6.2, written by hand (the library's writer cannot set PADDED with pad length 0):
+			// [pad length] [E + stream dependency (31 bits), weight] fragment padding
+			var flags http2.Flags
+			var payload []byte
+			if it.Padded {
+				flags |= http2.FlagHeadersPadded
+				payload = append(payload, byte(it.PadLen))
+			}
+			if it.Prio {
+				flags |= http2.FlagHeadersPriority
+				payload = append(payload, 0x80, 0, 0, 0, 200) // exclusive, depends on stream 0, weight 201
+			}
+			if it.EndStream {
+				flags |= http2.FlagHeadersEndStream
+			}
+			if !it.Split {
+				flags |= http2.FlagHeadersEndHeaders
+			}
+			payload = append(payload, first...)
+			if it.Padded {
+				payload = append(payload, make([]byte, it.PadLen)...)
+			}
+			err = e.fr.WriteRawFrame(http2.FrameHeaders, flags, it.Stream, payload)
+			break
+		}
 		err = e.fr.WriteHeaders(http2.HeadersFrameParam{
 			StreamID: it.Stream, BlockFragment: first, EndStream: it.EndStream, EndHeaders: !it.Split,
 		})
@@ -565,7 +616,26 @@ func (e *c15DirEnc) encode(it *c15Item) []byte {
 		err = e.fr.WriteContinuation(it.Stream, !it.More, e.pending[0])
 		e.pending = e.pending[1:]
 	case 'D':
+		if it.Padded {
+			// RFC 9113 section 6.1: [pad length] data padding; "pad length" may be 0 and the data may be empty
+			flags := http2.FlagDataPadded
+			if it.EndStream {
+				flags |= http2.FlagDataEndStream
+			}
+			payload := append([]byte{byte(it.PadLen)}, it.Data...)
+			payload = append(payload, make([]byte, it.PadLen)...)
+			err = e.fr.WriteRawFrame(http2.FrameData, flags, it.Stream, payload)
+			break
+		}
 		err = e.fr.WriteData(it.Stream, it.EndStream, it.Data)
+	case 'Y':
+		err = e.fr.WritePriority(it.Stream, http2.PriorityParam{StreamDep: 0, Weight: 7})
+	case 'X':
+		// a frame type this version of the protocol does not define: "implementations MUST ignore and discard
+		// frames of unknown types" (RFC 9113 section 4.1); its flag bits look like END_STREAM|END_HEADERS|PADDED
+		err = e.fr.WriteRawFrame(http2.FrameType(0xEE), http2.Flags(0x0D), it.Stream, []byte{0xFF, 0x00, 0x07})
+	case 'N':
+		err = e.fr.WritePing(false, [8]byte{1, 2, 3, 4, 5, 6, 7, 8})
 	case 'R':
 		err = e.fr.WriteRSTStream(it.Stream, it.Code)
 	case 'G':
@@ -805,6 +875,13 @@ type c15Shape struct {
 	RespPieces  int  `json:"resppieces,omitempty"`  // >= 3: the first response message is spread over that many DATA frames
 	Glue        bool `json:"glue,omitempty"`        // with ReqPieces / RespPieces: the second message starts in the DATA frame that carries the last piece of the first
 	LateData    bool `json:"latedata,omitempty"`    // late variants: a response DATA frame (one more message) is among the late frames
+	// padding and priority (RFC 9113 sections 6.1, 6.2, 6.3): legal on any DATA / HEADERS frame, never part of a message
+	Pad     int  `json:"pad,omitempty"`     // 0: no padding; k+1: every DATA frame of the call carries the PADDED flag with pad length k (k = 0, 1, 7, 255)
+	PadHdr  bool `json:"padhdr,omitempty"`  // with Pad: every HEADERS frame of the call is PADDED too
+	PadOnly bool `json:"padonly,omitempty"` // with Pad: DATA frames of ZERO data bytes (pad length + padding, nothing else): one before the first DATA frame of each direction; the END_STREAM of the request's last DATA frame moves to one that follows it
+	PadOne  bool `json:"padone,omitempty"`  // with Pad: the first byte of the first DATA frame of each direction travels in a DATA frame of its own
+	Prio    bool `json:"prio,omitempty"`    // every HEADERS frame of the call carries the PRIORITY flag and fields
+	Extra   bool `json:"extra,omitempty"`   // frames that carry nothing of a call in between: PRIORITY and an unknown frame type (0xEE) on the call's stream after the request header block, an unknown type on stream 0 and a PING after the response header block, PRIORITY for the stream after its end
 	// "", rstc-early, rstc-mid, rsts-early, rsts-mid, refused-retry, goaway, and the late variants: the
 	// server's frames were already in flight when the stream went away and arrive afterwards, each header
 	// block adding entries to the HPACK dynamic table of the response direction:
@@ -846,11 +923,19 @@ func (s c15Shape) tag() string {
 	if s.ReqPieces >= 3 || s.RespPieces >= 3 {
 		v += "+message-in-3-or-more-data-frames"
 	}
+	if s.padded() {
+		v += "+padded-frames"
+	}
+	if s.Prio || s.Extra {
+		v += "+priority-or-unknown-frames"
+	}
 	if !s.Named {
 		v += "-nameless"
 	}
 	return v
 }
+
+func (s c15Shape) padded() bool { return s.Pad > 0 }
 
 type c15Msg struct {
 	Flags byte
@@ -1022,6 +1107,95 @@ func c15AppendMsg(frames [][]byte, env []byte, i, k int, glue bool) [][]byte {
 // retry uses id+4) and, independently of any implementation, what its trace
 // must contain.
 func c15CallItems(sh c15Shape, idx int) ([]c15Item, c15Want) {
+	items, want := c15CallItemsPlain(sh, idx)
+	return c15ApplyPad(items, sh, idx), want
+}
+
+// c15ApplyPad adds what the padding / priority fields of the shape ask for to the frames of a call.
+// Nothing of it belongs to a message or a header field: the demanded trace is that of the plain script.
+func c15ApplyPad(items []c15Item, sh c15Shape, idx int) []c15Item {
+	if !sh.padded() && !sh.Prio && !sh.Extra {
+		return items
+	}
+	padLen := sh.Pad - 1
+	firstD := [2]int{-1, -1}
+	lastD := [2]int{-1, -1}
+	for i, it := range items {
+		if it.Kind == 'D' && !it.Late {
+			if firstD[it.Dir] < 0 {
+				firstD[it.Dir] = i
+			}
+			lastD[it.Dir] = i
+		}
+	}
+	var out []c15Item
+	seenReqBlock, seenRespBlock := false, false
+	var lastStream uint32
+	for i, it := range items {
+		pad := func(d c15Item) c15Item {
+			if sh.padded() {
+				d.Padded, d.PadLen = true, padLen
+			}
+			return d
+		}
+		switch it.Kind {
+		case 'H':
+			it.Prio = sh.Prio
+			if sh.padded() && sh.PadHdr {
+				it.Padded, it.PadLen = true, padLen
+			}
+			lastStream = it.Stream
+			out = append(out, it)
+		case 'D':
+			if it.Late {
+				out = append(out, pad(it))
+				break
+			}
+			if sh.padded() && sh.PadOnly && i == firstD[it.Dir] {
+				out = append(out, pad(c15Item{Call: it.Call, Dir: it.Dir, Kind: 'D', Stream: it.Stream}))
+			}
+			moveEnd := sh.padded() && sh.PadOnly && i == lastD[it.Dir] && it.EndStream && len(it.Data) > 0
+			if moveEnd {
+				it.EndStream = false
+			}
+			if sh.padded() && sh.PadOne && i == firstD[it.Dir] && len(it.Data) > 1 {
+				one := it
+				one.Data, one.EndStream = it.Data[:1], false
+				out = append(out, pad(one))
+				it.Data = it.Data[1:]
+			}
+			out = append(out, pad(it))
+			if moveEnd {
+				out = append(out, pad(c15Item{Call: it.Call, Dir: it.Dir, Kind: 'D', Stream: it.Stream, EndStream: true}))
+			}
+		default:
+			out = append(out, it)
+		}
+		if !sh.Extra {
+			continue
+		}
+		blockEnds := (it.Kind == 'H' && !it.Split) || (it.Kind == 'C' && !it.More)
+		switch {
+		case blockEnds && it.Dir == c15DirReq && !seenReqBlock:
+			seenReqBlock = true
+			out = append(out,
+				c15Item{Call: idx, Dir: c15DirReq, Kind: 'Y', Stream: it.Stream},
+				c15Item{Call: idx, Dir: c15DirReq, Kind: 'X', Stream: it.Stream})
+		case blockEnds && it.Dir == c15DirResp && !seenRespBlock && !it.Late:
+			seenRespBlock = true
+			out = append(out,
+				c15Item{Call: idx, Dir: c15DirResp, Kind: 'X', Stream: 0},
+				c15Item{Call: idx, Dir: c15DirResp, Kind: 'N'})
+		}
+	}
+	if sh.Extra && lastStream != 0 {
+		// PRIORITY may be sent for a stream in any state, also after it was closed (RFC 9113 section 6.3)
+		out = append(out, c15Item{Call: idx, Dir: c15DirReq, Kind: 'Y', Stream: lastStream})
+	}
+	return out
+}
+
+func c15CallItemsPlain(sh c15Shape, idx int) ([]c15Item, c15Want) {
 	id := uint32(1 + 2*idx)
 	var items []c15Item
 	want := c15Want{Call: idx}
